@@ -185,6 +185,62 @@ Qed.
 End WithSip.
 
 (* ------------------------------------------------------------------ *)
+(* serialize() inverts parse(): sorting an already sorted list is the identity *)
+
+Local Notation lebR := (fun x y : Z => is_true (x <=? y)).
+
+Lemma lebR_trans : RelationClasses.Transitive lebR.
+Proof. intros x y z H1 H2. apply Z.leb_le in H1, H2. apply Z.leb_le. lia. Qed.
+
+Lemma sorted_perm_eq l1 : forall l2,
+  StronglySorted lebR l1 -> StronglySorted lebR l2 -> Permutation l1 l2 -> l1 = l2.
+Proof.
+  induction l1 as [|a r1 IH]; intros l2 S1 S2 P.
+  - apply Permutation_nil in P. now subst.
+  - destruct l2 as [|b r2]; [apply Permutation_sym, Permutation_nil in P; discriminate|].
+    inversion S1 as [|? ? S1' F1]; subst. inversion S2 as [|? ? S2' F2]; subst.
+    assert (E : a = b).
+    { rewrite Forall_forall in F1, F2.
+      assert (Ha : In a (b :: r2)) by (eapply Permutation_in; [exact P|now left]).
+      assert (Hb : In b (a :: r1)) by (eapply Permutation_in; [apply Permutation_sym; exact P|now left]).
+      destruct Ha as [->|Ha]; [reflexivity|]. destruct Hb as [->|Hb]; [reflexivity|].
+      pose proof (F2 a Ha) as L1. pose proof (F1 b Hb) as L2.
+      apply Z.leb_le in L1, L2. lia. }
+    subst b. f_equal. apply IH; try assumption. eapply Permutation_cons_inv; exact P.
+Qed.
+
+Lemma ascending_sorted l : forall last, ascending last l -> Sorted lebR l.
+Proof.
+  induction l as [|x r IH]; intros last H; [constructor|].
+  destruct H as [_ Hr]. constructor; [eapply IH; exact Hr|].
+  destruct r as [|y r']; constructor. destruct Hr as [Hxy _]. now apply Z.leb_le.
+Qed.
+
+Lemma zsort_sorted_id l last : ascending last l -> zsort l = l.
+Proof.
+  intros H. unfold zsort. apply sorted_perm_eq.
+  - apply ZSort.StronglySorted_sort. exact lebR_trans.
+  - apply Sorted_StronglySorted; [exact lebR_trans | eapply ascending_sorted; exact H].
+  - apply Permutation_sym, ZSort.Permuted_sort.
+Qed.
+
+(* every canonical GCS (the serialisation of a non-negative non-decreasing list) *)
+Lemma cf_serialize_parse key items raw :
+  ascending 0 items -> serialize_gcs items = Ok raw ->
+  exists cf, cf_parse key raw = Ok cf /\ cf_items cf = items /\ cf_serialize cf = Ok raw /\
+             forall hash256, cf_hash hash256 cf = Ok (hash256 raw).
+Proof.
+  intros Ha Hs.
+  destruct (gcs_roundtrip items Ha (serialize_gcs_len _ _ Hs)) as [b [E1 E2]].
+  assert (b = raw) by congruence. subst b.
+  unfold cf_parse. rewrite E2. cbn [bind]. eexists. split; [reflexivity|].
+  assert (Ei : cf_items (cf_new key items) = items)
+    by (unfold cf_items, cf_new; cbn [cf_hashes]; eapply zsort_sorted_id; exact Ha).
+  assert (Es : cf_serialize (cf_new key items) = Ok raw) by (unfold cf_serialize; now rewrite Ei).
+  split; [exact Ei|]. split; [exact Es|]. intros h. unfold cf_hash. now rewrite Es.
+Qed.
+
+(* ------------------------------------------------------------------ *)
 (* instantiation with the SipHash-2-4 model of siphash.py *)
 From V Require Import Model.Siphash Proofs.SiphashP.
 From V Require Spec.Siphash.
@@ -231,4 +287,17 @@ Proof.
     unfold hash_to_range at 1. rewrite (siphash_eq_spec key x L Hk Hx). cbn [bind].
     rewrite (IH Hr). reflexivity. }
   rewrite Em in Eh. cbn [bind] in Eh. now injection Eh as <-.
+Qed.
+
+(* every filter produced by encode_gcs, for any keyed hash into [0, 2^64) *)
+Lemma cf_serialize_parse_encode (sip : bytes -> bytes -> result Z) key items raw :
+  sip_range sip key items -> encode_gcs sip key items = Ok raw ->
+  exists cf, cf_parse key raw = Ok cf /\ cf_serialize cf = Ok raw /\
+             forall hash256, cf_hash hash256 cf = Ok (hash256 raw).
+Proof.
+  intros Hr He. unfold encode_gcs in He.
+  destruct (hashed_items sip key items) as [l|] eqn:Eh; [|discriminate]. cbn [bind] in He.
+  destruct (hashed_items_props sip key items l Hr Eh) as [_ [Ha _]].
+  destruct (cf_serialize_parse key l raw Ha He) as [cf [E1 [_ [E2 E3]]]].
+  exists cf. repeat split; assumption.
 Qed.
